@@ -29,7 +29,7 @@ def main():
     res.update({'exit': rc, 'caught': rc == 1 and bool(viol), 'wall_s': round(time.time() - t0), 'tail': out.strip().splitlines()[-3:]})
     if viol:
         try:
-            d = json.load(open(viol[0].split('replay=')[1].strip().replace('/verif/', str(base / 'verif') + '/')))
+            pth = viol[0].split('replay=')[1].strip(); d = json.load(open(pth if pth.startswith(str(base)) else pth.replace('/verif/', str(base / 'verif') + '/', 1)))
             f = d.get('finding', {}); res['first_finding'] = {k: f[k] for k in list(f)[:10] if k not in ('behaviour', 'instance', 'detail', 'args', 'event')}
         except Exception as ex:
             res['first_finding'] = str(ex)
